@@ -381,9 +381,12 @@ impl<K: Hash + Eq, V, FH: BuildHasher, RH: BuildHasher> Cache<K, V>
                         let ent_ptr = ent.as_mut();
                         swap_value(&mut v, ent_ptr);
                     }
-                    self.protected
-                        .put_or_evict_nonnull(ent)
-                        .map(|evicted_ent| self.probationary.put_nonnull(evicted_ent))
+                    // when the protected segment is full its LRU entry is demoted
+                    // to the probationary segment; this put is still an update
+                    if let Some(evicted_ent) = self.protected.put_or_evict_nonnull(ent) {
+                        self.probationary.put_nonnull(evicted_ent);
+                    }
+                    None
                 })
                 .unwrap_or(PutResult::<K, V>::Update(v));
         }
